@@ -107,6 +107,7 @@ def complement(ivs, maxc):
 class _Eval:
     def __init__(self, prog):
         self.prog = prog
+        self.trace = None   # loop-body mode: (local, value) for every boolean constant assigned on the path taken
 
     # ---- cut points ------------------------------------------------------------------------
     def cut_points(self, body, seen=None):
@@ -231,6 +232,8 @@ class _Eval:
                 if lenient:
                     if dst == 0 and k == "agg" and rv.get("variant") == "Err":
                         passed_err = True
+                    if k == "use" and "const" in rv["op"] and rv["op"]["const"].get("ty") == "bool" and self.trace is not None:
+                        self.trace.append((dst, bool(rv["op"]["const"].get("int"))))
                     try:
                         self._assign(env, dst, rv, lo, hi)
                     except Opaque:
@@ -337,6 +340,8 @@ class _Eval:
                 bb = t["target"]
             elif k == "drop":
                 bb = t["target"]
+            elif k == "assert" and lenient and t.get("target") is not None:
+                bb = t["target"]   # loop-body mode follows the non-panicking edge
             else:
                 raise Opaque("terminator %s" % k)
 
@@ -489,3 +494,28 @@ def loop_scan_set(prog, body, some_bb, header_bb, opt_local):
             bad.append((a, b - 1))
             err_ok = err_ok and passed
     return normalise(bad), err_ok, width, n
+
+
+def loop_flag_set(prog, body, some_bb, header_bb, opt_local, flag_local):
+    """Loop over the characters of a string that sets a boolean flag: the set of characters for which the loop body assigns
+    `true` to `flag_local` (e.g. `needs_quotes`).  Returns (set, width, cells)."""
+    ev = _Eval(prog)
+    ty = body.local_ty(opt_local)
+    if not ty.startswith("core::option::Option<") or not ty.endswith(">"):
+        raise Opaque("loop item is not an Option")
+    inner = ty[len("core::option::Option<"):-1]
+    shape = ev.shape_of_type(inner)
+    if _count_cells(shape) != 1:
+        raise Opaque("cannot locate exactly one character in the loop item %s" % inner)
+    width = MAXC if "char" in inner else 0xFF
+    cuts = sorted({0, width + 1} | {c for c in ev.cut_points(body) if 0 <= c <= width + 1})
+    hit = []
+    n = 0
+    for a, b in zip(cuts, cuts[1:]):
+        n += 1
+        ev.trace = []
+        ev.run(body, [], (a, b - 1), start=some_bb, env0={opt_local: ("tuple", {0: shape})}, stops={header_bb: "continue"})
+        if (flag_local, True) in ev.trace:
+            hit.append((a, b - 1))
+    ev.trace = None
+    return normalise(hit), width, n
